@@ -126,7 +126,7 @@ def generate(rng: random.Random, cons: dict) -> dict:
         g = nx.DiGraph()
         g.add_nodes_from(ids)
         g.add_edges_from(edges)
-        mul, off = rng.choice([(1, 0), (3, 2), (7, 10)])
+        mul, off = rng.choice([(1, 0), (3, 2), (7, 10), (37, 200)])
         segs = sorted(models.segments(g), key=lambda b: min(b))
         comps = sorted(models.components(g), key=lambda b: min(b))
         perm_s = list(range(1, len(segs) + 1))
